@@ -30,6 +30,7 @@ import (
 	"github.com/versity/versitygw/s3api/utils"
 	"github.com/versity/versitygw/s3err"
 	"github.com/versity/versitygw/s3log"
+	"github.com/versity/versitygw/verifhook"
 )
 
 const (
@@ -128,6 +129,7 @@ func VerifyV4Signature(root RootUserConfig, iam auth.IAMService, logger s3log.Au
 				}
 			}
 
+			verifhook.At("auth.deferred")
 			return ctx.Next()
 		}
 
@@ -155,6 +157,7 @@ func VerifyV4Signature(root RootUserConfig, iam auth.IAMService, logger s3log.Au
 		if err != nil {
 			return sendResponse(ctx, err, logger, mm)
 		}
+		verifhook.At("auth.verified")
 
 		return ctx.Next()
 	}
